@@ -318,8 +318,13 @@ def suites(tier, seed):
     ndocs = 60 if thorough else 12
     cases = []
     docs = []
+    def rule_with_rows(f):
+        return any(it["kind"] == "rule" and any(x["kind"] == "outline" and sum(e["rows"] for e in x["examples"]) >= 1 for x in it["items"])
+                   and any(x["kind"] == "scenario" for x in it["items"]) for it in f["items"])
     for d in range(ndocs):
         f = gen_doc(rnd, 1)
+        while d % 3 == 0 and not rule_with_rows(f):     # every third document has a rule holding an outline with rows and a plain scenario
+            f = gen_doc(rnd, 1)
         text, info = render_doc(f, rnd)
         annotate_lines(f, text)
         docs.append((f, text, info))
